@@ -1,9 +1,23 @@
 #!/bin/bash
 # tools/overlay_test.sh <module-dir-rel-to-repo> <pkg-rel> <test-file> <run-regex>
-# Runs an in-package test against the real code of /repo without writing into /repo (go test -overlay).
+# Runs an in-package test against the real code of /repo (or of $GOVC_REPO, a scratch worktree) without adding the test
+# file to the repository (go test -overlay). Files the repository's own test helpers write next to their sources during
+# the run are removed again, tracked files they touch are restored.
 export GOFLAGS=-mod=mod GOPROXY=off GOSUMDB=off GOTOOLCHAIN=local
-mod="/repo/$1"; pkg="$2"; tf="$3"; run="$4"
+root="${GOVC_REPO:-/repo}"
+[ -d "$root/.git" ] || [ -f "$root/.git" ] || { echo "overlay_test: $root is not a git work tree"; exit 2; }
+mod="$root/$1"; pkg="$2"; tf="$3"; run="$4"
 tmp=$(mktemp -d /tmp/verif-ov.XXXXXX); trap 'rm -rf "$tmp"' EXIT
 printf '{"Replace": {"%s/%s/zz_verif_replay_test.go": "%s"}}\n' "$mod" "$pkg" "$(readlink -f "$tf")" > "$tmp/ov.json"
-cd "$mod" && go test -overlay "$tmp/ov.json" -vet=off -timeout 120s -count=1 -run "$run" -v "./$pkg" 2>&1 | grep -E '^\s+zz_verif_replay_test|^(ok|FAIL|---|panic:)|REPLAY' | cut -c1-300
-exit ${PIPESTATUS[0]}
+git -C "$root" status --porcelain --untracked-files=all | sort > "$tmp/before"
+cd "$mod" && go test -overlay "$tmp/ov.json" -vet=off -timeout ${OVERLAY_TIMEOUT:-300s} -count=1 -run "$run" -v "./$pkg" 2>&1 | grep -E '^\s+zz_verif_replay_test|^(ok|FAIL|---|panic:)|REPLAY' | cut -c1-300
+rc=${PIPESTATUS[0]}
+git -C "$root" status --porcelain --untracked-files=all | sort | comm -13 "$tmp/before" - > "$tmp/new"
+while read -r st f; do
+  [ -n "$f" ] || continue
+  case "$st" in
+    "??") (cd "$root" && rm -f -- "./$f");;
+    M|MM) git -C "$root" checkout -q -- "$f";;
+  esac
+done < "$tmp/new"
+exit $rc
